@@ -19,7 +19,8 @@ LEVEL = "model_checking"
 
 RULE = ("OneHotEncoder fit+transform on every layout TLC enumerates (p<=5/6 columns, each plain or categorical with "
         "1..3 categories, indices passed ascending/descending/rotated; p<=3/4 with a non-integer column) on f64 and f32, "
-        "plus seeded random layouts (n<=40, p<=10, <=6 categories, any subset/order) with unseen-value, non-integer and "
+        "plus seeded random layouts (n<=40, p<=10, <=6 categories, any subset/order; DenseMatrix f64/f32 and column-major "
+        "ndarray; negative zeros observed through their sign) and a row-count ladder 63..257/1025 (p<=4), each with unseen-value, non-integer and "
         "other-matrix variants; CategoryMapper<u16>/<String> on every history TLC enumerates (<=4/6 items over 4 symbols, "
         "3 constructors) plus random histories (<=60 items, <=12 symbols). An Encode case is non-trivial when two "
         "categorical columns are followed by a further column, or a column has a single category, or the indices are "
@@ -31,7 +32,8 @@ KNOWN_OFFSET_KEY = ("onehot: some column j with c_i < j < c_i + i behind the i-t
                     "having >=2 categories; output equals the as-built find_new_idxs arithmetic")
 
 TRACE_SPEC = ("preproc/PreprocTrace.tla", "preproc/PreprocTrace.cfg")
-MUST_HIT = ("Encode", "EncodeNonTrivial", "FitErr", "Unseen", "Unconstrained", "Mapper", "MapperUnknownProbe", "Expect")
+MUST_HIT = ("Encode", "EncodeNonTrivial", "FitErr", "Unseen", "Unconstrained", "NegZeroPassThrough", "RowLadder",
+            "RowsDifferAcrossBlocks", "UnseenLateRow", "FitErrLateRow", "NdColumnMajor", "Mapper", "MapperUnknownProbe", "Expect")
 
 
 def cat_counts(e):
@@ -145,6 +147,7 @@ def run(ctx):
     ctx.assumptions = ["matrix entries are multiples of 1/2 and are recorded doubled (exact)",
                        "categorical codes are integers in 0..65535; non-integer test values are code + 1/2",
                        "categorical index lists are duplicate-free and in range",
+                       "the sign of a zero is recorded separately (positions of -0.0 in the transformed and the returned matrix)",
                        "String categories are 's<n>'; the harness maps them back to n"]
     exhaustive = True  # the configured finite layout / history spaces are enumerated completely by TLC and replayed
     return ctx.finish(RULE, len(nt), exhaustive=exhaustive,
